@@ -215,6 +215,74 @@ fn c16_subs<B: Fld>(run: &Arc<Run>) -> Vec<Arc<dyn Sub>> {
         move |idx| json!({"trace_length": tc2[idx as usize].0, "exemptions": tc2[idx as usize].1}),
     ));
 
+    // ---- beyond the quantified lengths: trace domains above 2^32 (fields whose two-adicity allows them). The zero sets cannot
+    // be enumerated there, but the divisors are given in closed form: the exemption points of the transition divisor are the
+    // last e domain points, the numerator of an assertion divisor is x^k - g^(a*k). Steps at and above 2^32 meet every 32-bit
+    // truncation of a step or exponent.
+    if B::TWO_ADICITY >= 34 {
+        let hcases: Vec<u32> = vec![33, 34];
+        subs.push(sub_t(
+            &format!("{}.huge_domains", B::NAME),
+            hcases.len() as u64,
+            120,
+            true,
+            move |idx, out| {
+                let log_n = [33u32, 34][idx as usize];
+                let n = 1usize << log_n;
+                let g = root_of_unity::<B>(log_n);
+                out.nontrivial();
+                for e in [1usize, 2, 3, 5] {
+                    match pan::catch(|| ConstraintDivisor::<B>::from_transition(n, e)) {
+                        Ok(div) => {
+                            let want: BTreeSet<u128> = (n - e..n).map(|i| powm(g, i as u128, p)).collect();
+                            let got: BTreeSet<u128> = div.exemptions().iter().map(|x| x.int()).collect();
+                            if want != got || div.numerator().len() != 1 || div.numerator()[0].0 != n || div.numerator()[0].1.int() != 1 {
+                                out.violation(format!("{}: transition divisor over a trace domain above 2^32 does not exempt the last steps", B::NAME), json!({"log2_trace_length": log_n, "exemptions": e}));
+                            }
+                        },
+                        Err(pr) => out.violation(format!("{}: from_transition panics on a trace domain above 2^32 ({})", B::NAME, pr.class()), json!({"log2_trace_length": log_n, "exemptions": e})),
+                    }
+                    out.evals(1);
+                }
+                let big = 1usize << 32;
+                // single assertions: x - g^step
+                for step in [big - 1, big, big + 1, n - 1] {
+                    let a = Assertion::<B>::single(0, step, B::mk(7));
+                    match pan::catch(|| ConstraintDivisor::<B>::from_assertion(&a, n)) {
+                        Ok(div) => {
+                            let ok = div.numerator().len() == 1 && div.numerator()[0].0 == 1 && div.numerator()[0].1.int() == powm(g, step as u128, p) && div.exemptions().is_empty();
+                            if !ok {
+                                out.violation(format!("{}: the divisor of a single assertion at a step at or above 2^32 is not x - g^step", B::NAME), json!({"log2_trace_length": log_n, "step": step}));
+                            }
+                        },
+                        Err(pr) => out.violation(format!("{}: from_assertion panics on a trace domain above 2^32 ({})", B::NAME, pr.class()), json!({"log2_trace_length": log_n, "step": step})),
+                    }
+                    out.evals(1);
+                }
+                // periodic assertions with two asserted steps: x^2 - g^(2 * first)
+                for first in [big, big + 7] {
+                    let stride = n / 2;
+                    if first >= stride {
+                        continue;
+                    }
+                    let a = Assertion::<B>::periodic(0, first, stride, B::mk(7));
+                    match pan::catch(|| ConstraintDivisor::<B>::from_assertion(&a, n)) {
+                        Ok(div) => {
+                            let ok = div.numerator().len() == 1 && div.numerator()[0].0 == 2 && div.numerator()[0].1.int() == powm(g, 2 * first as u128, p);
+                            if !ok {
+                                out.violation(format!("{}: the divisor of a periodic assertion with a first step above 2^32 is not x^k - g^(a*k)", B::NAME), json!({"log2_trace_length": log_n, "first_step": first, "stride": stride}));
+                            }
+                        },
+                        Err(pr) => out.violation(format!("{}: from_assertion panics on a trace domain above 2^32 ({})", B::NAME, pr.class()), json!({"log2_trace_length": log_n, "first_step": first})),
+                    }
+                    out.evals(1);
+                }
+            },
+            |idx| json!({"log2_trace_length": 33 + idx}),
+        ));
+        let _ = hcases;
+    }
+
     // ---- exemption bounds of the context
     let l2 = lens.clone();
     subs.push(sub_t(
